@@ -74,6 +74,39 @@ def authCached (checksBase : Bool) (w : World) (c : AuthCache) (name pass : Stri
 def World.setPassword (w : World) (name pw : String) : World :=
   { w with users := w.users.map (fun u => if u.name = name then { u with password := pw } else u) }
 
+/-! ## the arrow flight handshake (services/arrowflight: authServer) -/
+
+/-- tokens issued so far: the user name of token #i, in issue order (the token text is a hash the
+client cannot choose; the harness names tokens by their index). `enabled` = flight-auth-enabled. -/
+structure FlightSt where
+  enabled : Bool
+  issued : List String
+deriving DecidableEq, Repr
+
+inductive FlightAuthAns where
+  | opened            -- authentication off: nothing read, nothing sent
+  | token (i : Nat)   -- token #i sent back
+  | denied
+deriving DecidableEq, Repr
+
+/-- `authServer.Authenticate`: the handshake payload names a user and a password; a token is
+issued iff `Client.Authenticate` (password cache included) accepts them. -/
+def flightAuth (checksBase : Bool) (w : World) (c : AuthCache) (st : FlightSt) (name pass : String) :
+    FlightAuthAns × FlightSt × AuthCache :=
+  if !st.enabled then (.opened, st, c)
+  else match authCached checksBase w c name pass with
+    | (some _, c') => (.token st.issued.length, { st with issued := st.issued ++ [name] }, c')
+    | (none, c') => (.denied, st, c')
+
+/-- `authServer.IsValid`: with authentication off every token is "valid" for the pseudo user
+`ArrowFlightWriteSuccessfully`; otherwise only an issued token is, for the user it was issued to
+(the 24 h expiry is left out). `tok` = index of an issued token, or none for any other text. -/
+def flightValid (st : FlightSt) (tok : Option Nat) : Option String :=
+  if !st.enabled then some "ArrowFlightWriteSuccessfully"
+  else match tok with
+    | some i => st.issued[i]?
+    | none => none
+
 /-! ## the zero-user bootstrap rule -/
 
 /-- `CREATE USER … WITH ALL PRIVILEGES` (the harness puts "admin" into the statement's target). -/
